@@ -30,13 +30,20 @@ func registerTlbOps(ops map[string]h.ExecFn) {
 		}
 		return "ok"
 	}
-	ops["go.tlbc.values"] = func(a []string) string {
-		path, err := ensureTlbProgram(string(h.MustUnHex(a[0])))
-		if err != nil {
-			return failf("nocompile", "%v", err)
+	for _, op := range []string{"go.tlbc.values", "tlbs.desc", "tlbs.enc", "tlbs.dec"} {
+		op := op
+		ops[op] = func(a []string) string {
+			path, err := ensureTlbProgram(string(h.MustUnHex(a[0])))
+			if err != nil {
+				if strings.HasPrefix(op, "go.") {
+					return failf("nocompile", "%v", err)
+				}
+				return "nocompile"
+			}
+			return forwardTo(path, op, a)
 		}
-		return forwardTo(path, "go.tlbc.values", a)
 	}
+	ops["tlbs.ok"] = func(a []string) string { return "ok 1 1" } // the schema generator stays inside the subset
 }
 
 func generateTlb(schema string) (string, error) {
@@ -69,7 +76,6 @@ import (
 	"encoding/hex"
 	"os"
 	"reflect"
-	"strconv"
 	"strings"
 
 	"github.com/tonkeeper/tongo/boc"
@@ -80,14 +86,9 @@ import (
 var bindings = map[string]map[string]reflect.Type{
 %s}
 
-func run(line string) (ans string) {
-	defer func() {
-		if r := recover(); r != nil {
-			ans = "FAIL panic"
-		}
-	}()
+func run(line string) string {
 	f := strings.Fields(line)
-	if len(f) != 5 || f[0] != "go.tlbc.values" {
+	if len(f) < 3 {
 		return "bad-op"
 	}
 	raw, err := hex.DecodeString(f[1])
@@ -97,11 +98,12 @@ func run(line string) (ans string) {
 	sum := sha1.Sum(append([]byte("tlb:"), raw...))
 	types, ok := bindings[hex.EncodeToString(sum[:8])]
 	if !ok {
-		return "FAIL noprogram"
+		if strings.HasPrefix(f[0], "go.") {
+			return "FAIL noprogram"
+		}
+		return "noprogram"
 	}
-	seed, _ := strconv.ParseInt(f[3], 10, 64)
-	count, _ := strconv.Atoi(f[4])
-	return tlbmini.CheckValues(string(raw), types, f[2], seed, count,
+	return tlbmini.Serve(f, string(raw), types,
 		func(c *boc.Cell, o any) error { return tlb.Marshal(c, o) },
 		func(c *boc.Cell, o any) error { return tlb.Unmarshal(c, o) })
 }
@@ -252,9 +254,31 @@ func genTlb(g *h.G) {
 		hx := hex.EncodeToString([]byte(texts[i]))
 		g.Emit("go.tlbc.generate", hx)
 		g.Emit("go.tlbc.compile", hx)
+		g.Emit("tlbs.ok", hx)
+		path, perr := ensureTlbProgram(texts[i])
 		for _, tn := range s.TypeNames() {
 			g.NonTrivial("tlb/" + tlbSid(texts[i]) + "/" + tn)
+			g.Emit("tlbs.desc", hx, tn)
 			g.Emit("go.tlbc.values", hx, tn, fmt.Sprint(g.Rng.Int63()), fmt.Sprint(g.Scale(40, 200)))
+			if perr != nil {
+				continue
+			}
+			// values come from the compiled program (reflection generator of package tlbx over the generated structs)
+			ans := forwardTo(path, "gen", []string{hx, tn, fmt.Sprint(g.Rng.Int63()), fmt.Sprint(g.Scale(12, 40))})
+			if !strings.HasPrefix(ans, "ok ") {
+				continue
+			}
+			for _, it := range strings.Fields(ans[3:]) {
+				k := strings.LastIndexByte(it, '@')
+				if k < 0 {
+					continue
+				}
+				g.Count("tlb_values")
+				g.Emit("tlbs.enc", hx, tn, it[:k])
+				if it[k+1:] != "!" {
+					g.Emit("tlbs.dec", hx, tn, it[k+1:])
+				}
+			}
 		}
 	}
 }
